@@ -81,7 +81,13 @@ func toI(v interface{}) int64 {
 // Model is the reference interpreter state.
 type Model struct {
 	S State
+	// Env is set when a value left the envelope the generator intends (a string longer than
+	// MaxStr); the run is then discarded by the simulator instead of being judged.
+	Env bool
 }
+
+// MaxStr bounds the length of strings the model is willing to build.
+const MaxStr = 4096
 
 // resolve walks a path and returns the addressed reflect.Value. For Go facts the value is
 // addressable (so it can be assigned); for JSON and map members `holder`/`key` describe the slot.
@@ -274,7 +280,15 @@ func (m *Model) evalBin(e *Expr) (interface{}, error) {
 	if rerr != nil {
 		return nil, rerr
 	}
-	return BinOp(e.Op, l, r)
+	return m.guard(BinOp(e.Op, l, r))
+}
+
+func (m *Model) guard(v interface{}, err error) (interface{}, error) {
+	if s, ok := v.(string); ok && len(s) > MaxStr {
+		m.Env = true
+		return nil, merr("string longer than the envelope")
+	}
+	return v, err
 }
 
 // BinOp applies a non-logical binary operator per the documented semantics.
@@ -914,7 +928,7 @@ func (m *Model) Apply(a *Action) (ActionEffect, error) {
 		if err != nil {
 			return eff, err
 		}
-		nv, err := BinOp(a.Op[:1], cur, rhs)
+		nv, err := m.guard(BinOp(a.Op[:1], cur, rhs))
 		if err != nil {
 			return eff, err
 		}
